@@ -126,6 +126,21 @@ def fixed_case(rng, base, idx):
         cons = [{'current': '2022-01-12 12:00:00', 'days': 0, 'hours': 24}]
         policy = rng.choice(['ignore', 'replace', 'backslashreplace'])
         cls, glob = 'invalid-bytes-on-first-in-window-line', 0
+    elif idx == 5:
+        # one line longer than 1 MiB (no constraint): it is ONE line - the
+        # lines after it keep their numbers, and a multi-byte character
+        # sitting across the 1 MiB mark is still valid UTF-8
+        big = (b'2022-01-12 00:00:00 ' + b'L' * ((1 << 20) - 21)
+               + '\u20ac'.encode() + b'L' * 90 + b' alpha 7\n')
+        data = b'alpha 1\n' + big + b'alpha 2\nalpha 3\n'
+        skrun.materialise(d, {'x.log': data})
+        run = {'global': None, 'decode_errors': None,
+               'max_parallel_tasks': 4, 'adds': [[0, 'x.log', True]],
+               'new_searcher': True}
+        recipe = {'dir': d, 'constraints': [], 'defs': [sdef], 'runs': [run]}
+        return recipe, {'class': 'line-longer-than-1MiB-no-constraint',
+                        'data': data, 'policy': None, 'wide': False,
+                        'global': False, 'nfiles': 1}
     elif idx == 4:
         # EVERY search carries its own since constraint and an OLD line
         # (read while no search is enabled yet) is not valid UTF-8: under
@@ -176,7 +191,7 @@ def fixed_case(rng, base, idx):
 
 
 def make_case(rng, base, idx, big):
-    if idx in (1, 2, 3, 4):
+    if idx in (1, 2, 3, 4, 5):
         return fixed_case(rng, base, idx)
     data, cls = hostile(rng, big)
     if data[:2] == b'\x1f\x8b':
